@@ -403,7 +403,8 @@ def _new_callees(F, fn):
     out, seen = [fn], {fn.q}
     for g in out:
         for bb, t in g.body.calls():
-            q = t["f"].get("r") if t["f"].get("rlocal") else None
+            f = t["f"]
+            q = (f.get("r") or f.get("d")) if (f.get("rlocal") or f.get("local")) else None      # generic helpers resolve to their definition
             if q and q not in seen and F.is_new_fn(q):
                 h = F.fn_opt(q)
                 if h is not None and h.body is not None:
@@ -554,6 +555,15 @@ def rule_r5(F, rep):
     if not delim_l:
         raise AnchorMissing("lex_quoted_string: delimiter parameter")
     delim_l = delim_l[0]
+    # the table scripts the eat_* primitives of the reference tree; a primitive introduced later that reads the input bytes
+    # itself cannot be scripted: no verdict rather than a guessed table
+    for g in _new_callees(F, fn):
+        for bb, t in g.body.calls():
+            nme = callee_name(t) or ""
+            if nme in ("<[T]>::get", "<[T]>::first", "<[T]>::split_first", "<[T]>::get_unchecked") or nme.endswith("core::ops::index::Index>::index"):
+                if t["xs"] and "t" in t["xs"][0] and "u8" in g.body.ty(t["xs"][0]["t"])["s"]:
+                    raise kwalk.WalkLimit("lex_quoted_string eats input through %s (reads the bytes itself): the escape table does not "
+                                          "script it" % g.q.rsplit("::", 1)[-1])
     n = 0
     for e in list(range(0x20, 0x7F)) + [0x0A, 0x09, 0x80, 0xC3]:
         if e == ord("u"):
@@ -577,6 +587,14 @@ def rule_r5(F, rep):
                     return ("var", "core::option::Option", "None")
                 env["#pos"] = i + 1
                 return ("var", "core::option::Option", "Some")
+            if nme.startswith("<%s>::" % LEXER) and F.is_new_fn(t["f"].get("r") or nme) and w._inline_target(t, nme) is None:
+                # a lexer primitive introduced later that cannot be read in place (generic over a closure, say)
+                raise kwalk.WalkLimit("lex_quoted_string eats input through %s, which the escape table does not script" % nme)
+            if nme in ("<[T]>::get", "<[T]>::first", "<[T]>::split_first", "<[T]>::starts_with") and args and \
+                    "u8" in w.body.ty(t["xs"][0]["t"])["s"] and "t" in t["xs"][0]:
+                # the input is read through something other than the scripted eat_* primitives (a helper introduced later):
+                # the scripted table would be guesswork
+                raise kwalk.WalkLimit("lex_quoted_string reads the input through %s, which the escape table does not script" % nme)
             return None
 
         def on_term(w, bb, t, env):
@@ -606,6 +624,10 @@ def rule_r5(F, rep):
         else:
             exp = {((), ("InvalidEscapeInString",))}
         ok = res == exp
+        if not ok and any("?" in pushes for pushes, errs in res):
+            # the character that is appended is computed somewhere the walk cannot follow (a table lookup in a helper, a closure
+            # handed to a generic primitive): the escape table cannot be extracted from this shape
+            raise kwalk.WalkLimit("lex_quoted_string: the character appended after a backslash is not a constant on the walked path")
         n += 1
         rep.ob(R, "escape|%02X" % e, ok, {"after_backslash": chr(e) if 0x20 < e < 0x7F else hex(e), "outcome": sorted(map(str, res))}
                if e in (ord("n"), ord("v"), 0x2F, ord("a")) else None)
